@@ -10,6 +10,27 @@ from symx.core import Stats, HarnessError, explore, split_roots
 NPROC = int(os.environ.get('VERIF_NPROC', '16'))
 
 
+def host_str(s):
+    """A new `str` object equal to s.  The git hosts build user names with
+    `.lower()` on every access, so two equal names coming from the host are never
+    the same object; stubs that hand out one shared literal would hide identity
+    (`is`) comparisons."""
+    return (s + '.')[:-1] if isinstance(s, str) else s
+
+
+class HostNames:
+    """Mixin for stub pull requests / comments: `author` is a fresh object on every access."""
+    _author = None
+
+    @property
+    def author(self):
+        return host_str(self._author)
+
+    @author.setter
+    def author(self, v):
+        self._author = v
+
+
 def named_render(template, **kw):
     """Deterministic message text: template name + message code."""
     return '[%s code=%s]' % (template, kw.get('code', ''))
